@@ -25,7 +25,7 @@ PROPS = {
     },
     "C08": {
         "modules": ["Cose.Props.C08"],
-        "families": ["cbor", "map", "msg:wrongtype", "msg:gomap", "msg:C08", "claims"],
+        "families": ["cbor", "map", "msg:wrongtype", "msg:gomap", "msg:C08", "claims", "api"],
         "spec_ops": ["cbor.enc", "wire.wrongtype", "wire.badbucket", "wire.badpayload", "cbor.encdup", "wire.msgdup"],
         "n_quick": 8000, "n_thorough": 200000,
         "rule": "cbor.enc: random Go values (all integer kinds, nil/empty slices, nested CoseMaps of 0..320 int/text labels) encoded by the "
@@ -53,7 +53,7 @@ PROPS = {
     },
     "C12": {
         "modules": ["Cose.Props.C12"],
-        "families": ["prim:aead", "impl"],
+        "families": ["prim:aead", "impl", "api"],
         "spec_ops": ["prim.aead.enc", "prim.aead.dec", "prim.aead2"],
         "extras": [{"name": "race", "pkg": "./race", "build_flags": ["-race"], "args": ["-seed", "{seed}", "-n", "{n}", "-only", "aesgcm,aesccm,chacha,Encryptor"],
                     "n_quick": 40, "n_thorough": 600, "timeout": 3000}],
@@ -107,7 +107,7 @@ PROPS = {
         "assumptions": ["AEAD security assumed; uniqueness theorems (C12) reduce an accepted change to a tag forgery"],
     },
     "C04": {
-        "modules": ["Cose.Props.C04", "Cose.Props.Authd", "Cose.Props.History", "Cose.Props.KdfRoundtrip"], "families": ["msg:C04", "kdf"], "spec_ops": ["msg.consume", "msg.produce", "kdf.enc"],
+        "modules": ["Cose.Props.C04", "Cose.Props.Authd", "Cose.Props.History", "Cose.Props.KdfRoundtrip"], "families": ["msg:C04", "kdf", "api"], "spec_ops": ["msg.consume", "msg.produce", "kdf.enc"],
         "extras": [{"name": "race", "pkg": "./race", "build_flags": ["-race"], "args": ["-seed", "{seed}", "-n", "{n}", "-only", "Mac0/,Sign1/,Encrypt0/"],
                     "n_quick": 30, "n_thorough": 400, "timeout": 3000}],
         "n_quick": 400, "n_thorough": 40000,
@@ -142,7 +142,7 @@ PROPS = {
         "assumptions": ["value round trips of Key / Headers / recipients are tied by correspondence ops (map.unmarshal, msg.*), not by a general theorem"],
     },
     "C16": {
-        "modules": ["Cose.Props.C16"], "families": ["impl:C16", "key", "sig", "ecdh"], "spec_ops": ["impl.malformed"],
+        "modules": ["Cose.Props.C16"], "families": ["impl:C16", "key", "sig", "ecdh", "api"], "spec_ops": ["impl.malformed"],
         "model_queries": [["iana.diff", "ok none"]],
         "n_quick": 1000, "n_thorough": 100000,
         "rule": "keys of the 8 families with key_ops subsets of 1..10 in the representations key.Ops / []int / []any of mixed integer kinds, set before construction and changed (same / deleted / new list / malformed) "
@@ -151,7 +151,7 @@ PROPS = {
         "assumptions": ["known finding D9 (uninterpretable key_ops lift the restriction) is listed in known_findings.txt and proved as malformed_ops_unusable_cex"],
     },
     "C17": {
-        "modules": ["Cose.Props.C17", "Cose.Go.ByteStr", "Cose.Props.KeySetRoundtrip"], "families": ["key", "impl", "sig", "ecdh", "dec", "map", "conv"], "spec_ops": ["dec.keyjson", "conv.ed25519", "conv.ecdsa", "conv.ecdh", "conv.gen", "conv.keyset"],
+        "modules": ["Cose.Props.C17", "Cose.Go.ByteStr", "Cose.Props.KeySetRoundtrip"], "families": ["key", "impl", "sig", "ecdh", "dec", "map", "conv", "api"], "spec_ops": ["dec.keyjson", "conv.ed25519", "conv.ecdsa", "conv.ecdh", "conv.gen", "conv.keyset"],
         "extras": [{"name": "nolink", "pkg": "./nolink", "args": [], "n_quick": 1, "n_thorough": 1}],
         "n_quick": 1000, "n_thorough": 100000,
         "rule": "symmetric / Ed25519 / ECDSA keys with optional and broken members (kty, alg in every Go kind or absent or foreign, kid, key_ops, Base IV, extra labels, wrong sizes), nil key; "
@@ -168,7 +168,7 @@ PROPS = {
         "assumptions": ["group law / point derivation correctness of Go and of the Lean reference assumed, compared against each other"],
     },
     "C10": {
-        "modules": ["Cose.Props.C10"], "families": ["sig", "conv"], "spec_ops": ["sig.verify", "sig.decode", "sig.encode", "conv.ed25519", "conv.ecdsa", "conv.gen"],
+        "modules": ["Cose.Props.C10"], "families": ["sig", "conv", "api"], "spec_ops": ["sig.verify", "sig.decode", "sig.encode", "conv.ed25519", "conv.ecdsa", "conv.gen"],
         "extras": [{"name": "race", "pkg": "./race", "build_flags": ["-race"], "args": ["-seed", "{seed}", "-n", "{n}", "-only", "ecdsa,ed25519,Signer"],
                     "n_quick": 40, "n_thorough": 600, "timeout": 3000}],
         "n_quick": 500, "n_thorough": 40000,
